@@ -47,6 +47,10 @@ ASSUMPTIONS = [
     "either the render-size or the minimal-size picture is accepted, and the source file is "
     "accepted iff the WHOLE read-from-file gate holds",
     "blend=False (internal parameter): exactly one delete-at-cursor precedes each transmission",
+    "unstable environment (cell size alternating between two values on successive get_cell_size() reads "
+    "within one render): the clauses do not presuppose which read sizes what; they require ONE admissible "
+    "resolution per render, identical s x v for every strip, rh strips with rows [k*v,(k+1)*v), pixels equal "
+    "to the reference at the transmitted resolution s x v*rh, and no exception",
     "payload length 0 cannot occur in a real render (sizes are >= 1 px): it is covered by the "
     "spec -> code replay of get_chunks only",
 ]
@@ -154,6 +158,48 @@ def alpha_kind(alpha) -> str:
     return "bgterm" if alpha == "#" else "bghex"
 
 
+# --------------------------------------------------------------------------- unstable environment
+
+class FlipCellSize:
+    """``get_cell_size`` stand-in of an UNSTABLE terminal: successive reads alternate between two
+    cell sizes (font zoom while a render runs).  Installed over the name the graphics classes
+    call (``term_image.image.common.get_cell_size``) for the duration of one render only."""
+
+    def __init__(self, sizes):
+        self.sizes = [tuple(x) for x in sizes]
+        self.reads = 0
+
+    def __call__(self):
+        from term_image.geometry import _Size
+
+        size = self.sizes[self.reads % 2]
+        self.reads += 1
+        return _Size(*size)
+
+    def __enter__(self):
+        import term_image.image.common as common
+
+        if not hasattr(common, "get_cell_size"):
+            raise tlc.MachineryError("seam term_image.image.common.get_cell_size is missing")
+        self._common, self._saved = common, common.get_cell_size
+        common.get_cell_size = self
+        return self
+
+    def __exit__(self, *exc):
+        self._common.get_cell_size = self._saved
+        return False
+
+
+class _Stable:
+    reads = -1
+
+    def __enter__(self):
+        return self
+
+    def __exit__(self, *exc):
+        return False
+
+
 # --------------------------------------------------------------------------- real render
 
 def render_case(case):
@@ -180,28 +226,32 @@ def render_case(case):
     if case.get("method"):
         args["method"] = case["method"]
     via = case["via"]
+    cells2 = case.get("cells2")  # [first read, second read, first, ...] of an unstable terminal
+    env = FlipCellSize(cells2) if cells2 else _Stable()
     try:
-        if via == "str":
-            out = str(image)
-        elif via == "format":
-            out = format(image, renderkit.format_spec_for(case))
-        elif via == "frame":
-            def on_frame(img, *a, **k):
-                try:
-                    return image._render_image(img, *a, frame=True, **k)
-                finally:
-                    if img is not image._source:
-                        img.close()
+        with env:
+            if via == "str":
+                out = str(image)
+            elif via == "format":
+                out = format(image, renderkit.format_spec_for(case))
+            elif via == "frame":
+                def on_frame(img, *a, **k):
+                    try:
+                        return image._render_image(img, *a, frame=True, **k)
+                    finally:
+                        if img is not image._source:
+                            img.close()
 
-            out = image._renderer(on_frame, case["alpha"], **args)
-        else:
-            out = image._renderer(image._render_image, case["alpha"], **args)
+                out = image._renderer(on_frame, case["alpha"], **args)
+            else:
+                out = image._renderer(image._render_image, case["alpha"], **args)
     finally:
         try:
             image.close()
         except Exception:
             pass
-    cell = case.get("cell") or [1, 2]
+    cell = (cells2[0] if cells2 else case.get("cell")) or [1, 2]
+    cell2 = cells2[1] if cells2 else cell
     alpha = 40 / 255 if via == "str" else case["alpha"]
     hdr = dict(
         style=case["style"],
@@ -224,6 +274,10 @@ def render_case(case):
         modeclass=proj.mode_class(ref.mode),
         alphakind=alpha_kind(alpha),
         srckind=kind.split(":")[0],
+        unstable=bool(cells2),
+        cw2=cell2[0],
+        ch2=cell2[1],
+        cell_reads=env.reads,
     )
     return out, hdr, ref
 
@@ -429,7 +483,39 @@ def gate_cases(rng, tier):
                                 yield c
 
 
+UNSTABLE_PAIRS = [[[8, 16], [6, 12]], [[6, 12], [8, 16]], [[8, 16], [10, 20]], [[10, 20], [8, 16]],
+                  [[9, 18], [9, 20]], [[3, 5], [2, 4]]]
+
+
+def unstable_cases(rng, tier):
+    """Renders while the cell size alternates between two values on successive reads."""
+    reps = 3 if tier == "quick" else 40
+    for style, method in (("kitty", "lines"), ("kitty", None), ("kitty", "whole"), ("iterm2", "lines"),
+                          ("iterm2", None), ("iterm2", "whole"), ("iterm2", "anim")):
+        for pair in UNSTABLE_PAIRS:
+            for i in range(reps):
+                rw, rh = rng.randrange(1, 9), rng.choice([1, 2, 3, 4, 4])
+                a, b = pair
+                c = base_case(rng, style, method=method, size=[rw, rh], cell=a)
+                c["cells2"] = pair
+                c["alpha"] = rng.choice(ALPHAS)
+                c["srckind"] = rng.choice(["pil", "pil", "pilfile", "file"])
+                c["mode"] = rng.choice(["RGB", "RGBA", "L", "LA", "P"])
+                # pre-sized for either read (no resampling), or arbitrary
+                c["src"] = rng.choice([[rw * a[0], rh * a[1]], [rw * b[0], rh * b[1]], [40, 40], [7, 13],
+                                       [rw * a[0] + 3, rh * b[1] + 5]]) if i else [rw * a[0], rh * a[1]]
+                c["pixstyle"] = rng.choice(["noise", "mixed"])
+                if rng.random() < 0.6:
+                    c["args"]["compress"] = rng.randrange(0, 10)
+                if style == "iterm2":
+                    c["jpeg"] = rng.choice([None, None, None, 50])
+                    c["rff"] = rng.choice([None, True, False])
+                c["via"] = pick_via(rng, c)
+                yield c
+
+
 def gen_cases(rng, tier):
+    yield from unstable_cases(rng, tier)
     yield from boundary_cases(rng, tier)
     yield from gate_cases(rng, tier)
     yield from grid_cases(rng, 4 if tier == "quick" else 100)
@@ -522,8 +608,9 @@ def check_mc(res, name: str, rep: Report, actions) -> None:
 
 def corruptions(traces):
     """Recorded traces with ONE field altered; each must be rejected with the named clause."""
-    def first(pred):
-        return next((copy.deepcopy(t) for t in traces if pred(t)), None)
+    def first(pred, unstable=False):
+        # stable-environment traces unless asked otherwise (the unstable clauses admit sets)
+        return next((copy.deepcopy(t) for t in traces if t["hdr"]["unstable"] == unstable and pred(t)), None)
 
     def multi(t):
         return t["hdr"]["style"] == "kitty" and any(e["m"] == 1 for e in t["ev"])
@@ -578,6 +665,19 @@ def corruptions(traces):
         idx = [i for i, e in enumerate(t["ev"]) if e["a"] == "T"][-1]
         t["ev"] = t["ev"][:idx]
         out.append((t, "strip-count"))
+    t = first(lambda t: t["hdr"]["style"] == "kitty" and t["hdr"]["unstable"] and t["hdr"]["method"] == "lines"
+              and t["hdr"]["rh"] > 1 and t["hdr"]["compress"] == 0 and t["hdr"]["blend"]
+              and t["hdr"]["ch"] != t["hdr"]["ch2"] and len(t["ev"]) == t["hdr"]["rh"], unstable=True)
+    if t:
+        # second strip re-announced with the OTHER cell height (payload lengths made to agree)
+        e = t["ev"][1]
+        other = t["hdr"]["ch2"] if e["v"] == t["hdr"]["ch"] else t["hdr"]["ch"]
+        raw = e["s"] * other * (e["f"] // 8)
+        e["v"] = other
+        e["dlen"] = raw
+        e["b64len"] = e["tb64"] = 4 * ((raw + 2) // 3)
+        e["pad"] = (3 - raw % 3) % 3
+        out.append((t, "strip-uniform"))
     t = first(lambda t: t["hdr"]["style"] == "iterm2")
     if t:
         t["ev"][0]["size"] += 1
@@ -660,8 +760,9 @@ def main(rep: Report, replay: dict | None) -> None:
         # the invariants must bite: regressions written into the model have to be rejected
         muts = [("MC_Gfx", "MC_Gfx_mut1.cfg"), ("MC_Gfx", "MC_Gfx_mut2.cfg")]
         muts += [("MC_GfxRender", f"MC_GfxRender_mut_{v}.cfg") for v in
-                 (("cell-height-plus-1", "bpp-plus-1", "gate-ignores-palette", "whole-at-render-size")
-                  if thorough else ("cell-height-plus-1", "bpp-plus-1"))]
+                 (("cell-height-plus-1", "bpp-plus-1", "gate-ignores-palette", "whole-at-render-size",
+                   "second-cell-read")
+                  if thorough else ("cell-height-plus-1", "second-cell-read"))]
         for spec, cfg in muts:
             futs["mut:" + cfg] = pool.submit(tlc.run, spec, cfg, workers=2, timeout=600,
                                              deadlock=False, check=False)
@@ -675,6 +776,7 @@ def main(rep: Report, replay: dict | None) -> None:
     phase = {"render+project": 0.0, "trace-validation": 0.0}
     bc: dict[str, int] = {}
     actions: dict[str, int] = {}
+    unstable: dict[str, int] = {}
     rejected = 0
     block = 4000
     for b0 in range(0, len(cases), block):
@@ -727,7 +829,7 @@ def main(rep: Report, replay: dict | None) -> None:
                 canaries = corruptions(good)
             except (StopIteration, IndexError):
                 canaries = []
-            if len(canaries) >= 10:
+            if len(canaries) >= 11:
                 cv, st, trn = tlc.validate_traces(
                     "Trace_Gfx", "Trace_Gfx.cfg", [c[0] for c in canaries], batch=500, parallel=1,
                     workers=2, name="c03c", timeout=300,
@@ -746,6 +848,10 @@ def main(rep: Report, replay: dict | None) -> None:
                 raise tlc.MachineryError(f"only {len(canaries)} corrupted-trace canaries could be built")
         for key, n in classify_boundaries(traces).items():
             bc[key] = bc.get(key, 0) + n
+        for tr in traces:
+            if tr["hdr"]["unstable"]:
+                key = f"{tr['hdr']['style']}:{tr['hdr']['method']}:reads={tr['hdr']['cell_reads']}"
+                unstable[key] = unstable.get(key, 0) + 1
         for tr in traces:  # how often each action of Trace_Gfx fired (vacuity)
             for e in tr["ev"]:
                 a = ("ITermImage" if tr["hdr"]["style"] == "iterm2" else
@@ -761,6 +867,10 @@ def main(rep: Report, replay: dict | None) -> None:
     rep.extra["kitty_payload_boundary_classes"] = bc
     rep.extra["renders"] = len(cases)
     rep.extra["Trace_Gfx_actions"] = actions
+    rep.extra["unstable_cell_size_renders"] = unstable
+    if not replay and not rep.violations:
+        if not unstable or any(k.endswith("reads=0") for k in unstable):
+            raise tlc.MachineryError(f"unstable-environment group is vacuous (no cell size read seen): {unstable}")
     if not replay and not rep.violations:
         for a in ("KittyDelete", "KittyChunk", "ITermImage", "Finish"):
             if not actions.get(a):
